@@ -11,7 +11,7 @@ log defect cannot hide behind an exp defect.  Group elements are built by the 50
 import itertools
 import math
 import numpy as np
-from mc import ref, alph
+from mc import ref, alph, hist
 from mc.core import call, HarnessError
 
 PROP = 'C03'
@@ -253,6 +253,37 @@ def one_element(ctx, algebra, S, names, theta):
                 ctx.fail(cid, cn + '.log', 'raises:' + type(L).__name__, P, '%r' % (L,))
             else:
                 check_log_output(ctx, cid, cn + '.log', P, L, tw, algebra, Tref, S, theta)
+    # the same conversions on objects that came to hold T (S) through a history in which they had already been used
+    if not triv:
+        conv = [('%s.log/twist=%d' % (cn, tw), (lambda o, tw=tw: o.log(twist=tw)), tw) for tw in (True, False)]
+        if algebra in ('se2', 'se3'):
+            TWc = sm.Twist3 if three else sm.Twist2
+            conv.append(('%s(%s)' % (TWc.__name__, cn), lambda o: TWc(o).data[0], True))
+            conv.append(('%s.%s' % (cn, TWc.__name__), lambda o: getattr(o, TWc.__name__)().data[0], True))
+        for route, f, tw in conv:
+            for tag, Xh in hist.variants(C(np.array(Tref), check=False), f, fresh=False):
+                cid = base + '/%s/hist=%s' % (route, tag)
+                if not ctx.want(cid):
+                    continue
+                ctx.case(cid, key=(key, route, tag))
+                P = dict(P0, twist=int(tw), hist=tag)
+                ok, L = call(f, Xh)
+                if not ok:
+                    ctx.fail(cid, route.split('/')[0], 'raises:' + type(L).__name__, P, '%s after %s raised %r' % (route, tag, L))
+                else:
+                    check_log_output(ctx, cid, route.split('/')[0], P, L, tw, algebra, Tref, S, theta)
+        if algebra in ('se2', 'se3'):
+            for route, f in (('%s.exp' % TWc.__name__, lambda o: o.exp().data[0]), ('%s.%s' % (TWc.__name__, cn), lambda o: getattr(o, cn)().data[0])):
+                for tag, Wh in hist.variants(TWc(S.copy()), f, fresh=False):
+                    cid = base + '/%s/hist=%s' % (route, tag)
+                    if not ctx.want(cid):
+                        continue
+                    ctx.case(cid, key=(key, route, tag))
+                    ok, Y = call(f, Wh)
+                    if not ok:
+                        ctx.fail(cid, route, 'raises:' + type(Y).__name__, dict(P0, hist=tag), '%s after %s raised %r' % (route, tag, Y))
+                    else:
+                        check_exp_output(ctx, cid, route, dict(P0, hist=tag), Y, S, algebra, Tref)
     if algebra in ('se2', 'se3'):
         TW = sm.Twist3 if three else sm.Twist2
         tn = TW.__name__
